@@ -26,7 +26,7 @@ CLAIMS = {
     },
     "C02": {
         "text": "Theorems for all trees and all ignore predicates: a path is visited by the traversal that every command shares exactly when it is in the tree and neither it nor an ancestor below the root is ignored (visible_iff); visited paths are non-empty lists of node names (relative, never escaping); with distinct sibling names every entry is visited exactly once and resolves to the node on disk; post-order. Recorded digests are the digests of the file's content and every requested format is present unless a check failed (C04's sealEntries theorems). Tie: scenario differential incl. record order; monitor: independent walk of the disk with pathspec as the definition of 'excluded' versus the records of every manifest written (exactly one record per non-ignored entry, right history, kind, size, digests recomputed with the libraries), for folder mode, -sf mode, nested histories, path spellings.",
-        "note": "The step from 'visited' to 'recorded' (createVisit appends one record per visited child) is covered by the correspondence and the monitor, not by a theorem. " + COMMON_NOTE,
+        "note": "Folder mode: C02rec (one history) and C08part (nested, any depth) prove that the written generations hold exactly one record per visited entry, in the deepest history; -sf mode: C02sf proves that exactly the named files / the visible files below named folders are recorded (under SfOk, which click's exists=True validation of -sf and ROOT_PATH establishes). " + COMMON_NOTE,
         "technique": "Lean 4 proof (mutual structural induction over the tree) + scenario differential + independent disk-walk monitor",
         "design_ref": "7 C02",
     },
@@ -38,7 +38,7 @@ CLAIMS = {
     },
     "C07": {
         "text": "Theorems about the compositional definition (nodeHashes) for arbitrary digest and decode functions: invariant under any permutation of any directory listing anywhere in the tree; content hash invariant under renaming a file or folder in place (at any depth, when old and new location are equally visible); empty / fully ignored directory hashes as the empty input; file hashes independent of the name; the content hash binds contents and the structure hash binds names and contents exactly under explicitly stated digest inequalities on the two concrete pre-images (iff versions; necessity shown by constant-H and non-decoding-D examples). Tie: the implementation-shaped computation in the model (contexts filled over the post-order traversal, as create and verify -dh do) is compared with the real code on every scenario; monitor: independent reference evaluation of the compositional definition with library digests versus every recorded <directoryhash>/<roothash> and the output of verify -dh -co.",
-        "note": "The equality 'implementation-shaped fold = compositional definition' inside the model is checked by the monitor's reference evaluation on every scenario, not yet by a theorem. No global collision-freeness is assumed anywhere. " + COMMON_NOTE,
+        "note": "C07impl proves that the implementation-shaped fold of create (contexts, popped child hashes) equals the compositional definition for every tree, predicate and format list; C09e2e proves the same for verify -dh. No global collision-freeness is assumed anywhere: where a hash has to change, the digest inequality on the concrete pre-images is an explicit hypothesis. " + COMMON_NOTE,
         "technique": "Lean 4 proof (permutation invariance via sorted-permutation uniqueness, induction over the tree) + scenario differential + reference evaluation monitor",
         "design_ref": "7 C07",
     },
@@ -50,7 +50,7 @@ CLAIMS = {
     },
     "C12": {
         "text": "Theorems: appending patterns keeps the existing list as a prefix, adds each new pattern once in the given order and never creates duplicates (also for a batch that repeats a pattern); without a previous generation the list starts with the three defaults; every -i/-ii pattern is in the list; the list written into any (nested) history in a run is that history's previous list followed by the session's patterns; an ignored path is never visited by the traversal all four commands share (C02.ignored_nowhere). Tie: scenario differential; the Lean fragment matcher vs pathspec on 10^4 (patterns, path) pairs; monitor: <ignore> lists of successive manifests; trees sealed with and without ignored entries present give identical generations; editing/adding/deleting only ignored entries leaves verify, verify -dh, diff and create at exit 0.",
-        "note": "The matcher (pathspec gitwildmatch) is a parameter of the model; its fragment {base-name literal, base-name glob, name/} is implemented in the driver and cross-checked. " + COMMON_NOTE,
+        "note": "The matcher (pathspec gitwildmatch) is a parameter of the model; the fragment {literal or glob per component, name/, patterns anchored by a leading or inner slash, !negation with last-match-wins} is implemented in the driver and compared with pathspec on 10^4 generated pairs per run. C12nested proves the whole-command clauses on nested trees (pattern list of every written generation, ignored paths never recorded / hashed / reported); C06seq proves monotone accumulation along arbitrary runs. " + COMMON_NOTE,
         "technique": "Lean 4 proof (list prefix/nodup invariants) + scenario differential + matcher differential + consistency monitor",
         "design_ref": "7 C12",
     },
@@ -62,7 +62,7 @@ CLAIMS = {
     },
     "C03": {
         "text": "Theorems for every tree, history (flat or nested, any number of generations) and ignore predicate, once the history loads: the exit codes of the current source (10,11,12,20,21,30-33, pairwise distinct); complete characterisation of how verify / diff / create end (11 over 21 over 20 over 10; 10 over 21; 11 over 10 over 30); a file is judged mismatch iff it has an original entry whose digest differs from the file's, new iff it has none; every reported mismatch / new / missing path is genuine (no false report) and every visible mismatching or unrecorded file and every expected, unvisited, non-ignored path is reported with the stated exit code (completeness); a clean tree exits 0; a path with an ignored component is reported nowhere. Tie: seal-then-mutate scenarios with harness-side ground truth (alter/append/truncate, delete files and empty directories, add files, touch mtimes, edit ignored files; flat and nested, several generations, path spellings) on implementation and model; monitor: exit code and reported path sets against the ground truth.",
-        "note": "'Unchanged since sealed' refers to folder-mode create. " + COMMON_NOTE,
+        "note": "'Unchanged since sealed' refers to folder-mode create. C03e2e composes createFolder, applyWritten and verify/diff/create of the model: a freshly sealed tree verifies with exit 0 and empty reports, every later create succeeds, an altered file gives 11 naming exactly that file (for every tree, option set and digest function); C04nested extends the unchanged-tree half to nested histories of any depth; missing_not_on_disk: nothing that is on disk is reported missing, whatever the patterns (D16). " + COMMON_NOTE,
         "technique": "Lean 4 proof (decision logic stated outright + membership characterisations over the shared traversal) + mutation scenarios with ground truth + differential",
         "design_ref": "7 C03",
     },
@@ -98,7 +98,7 @@ CLAIMS = {
     },
     "C17": {
         "text": "Theorems: one generation step of the expected-path computation (drop the previous paths of the generation's renamed records, add its record paths); a path renamed away in some generation and not recorded again later is not expected, whatever came before (the former defect: a->b then b->c expects only c); the recorded-name look-up steps back to the previous path exactly under stated side conditions; no duplicates; rename detection only ever takes paths off the given missing list and does nothing without new paths. Tie/monitor: rename scenarios (renames in place, moves into existing and new directories, 1-3 rename generations, unrelated new files, format changes, -n) with pairwise distinct contents: create -dr exits 0, records each moved file under its new path with its former path, reports none missing; afterwards verify/diff/create accept the tree, verify fails when a renamed file was also changed; without -dr missing (10).",
-        "note": "The rename-detection double loop itself is modelled as written and tied by the differential; its full functional correctness is not a theorem. " + COMMON_NOTE,
+        "note": "C17detect proves the rename-detection double loop sound and complete (a pair is linked iff the digests in the first recorded format agree), that it changes nothing but previousPath fields, and the whole flow end to end (seal, move one file, create -dr exits 0 with the previous path recorded, verify/diff/create accept the tree; without -dr: missing plus new). Pairwise distinct contents are the property's own premise (a Lean witness shows what happens without it). " + COMMON_NOTE,
         "technique": "Lean 4 proof (fold lemmas over generations) + rename scenarios differential + independent previousPath monitor",
         "design_ref": "7 C17",
     },
